@@ -638,7 +638,9 @@ func buildScalarType(src protoreflect.FieldDescriptor, ext protoFieldExtensions)
 
 		if boolConstraint != nil {
 			if boolConstraint.Const != nil {
-				boolItem.Rules.Const = boolConstraint.Const
+				boolItem.Rules = &schema_j5pb.BoolField_Rules{
+					Const: boolConstraint.Const,
+				}
 			}
 		}
 
